@@ -12,6 +12,7 @@ T1  == VDict(<< <<VStr("a"), VDict(<< <<VStr("b"), VInt(1)>>, <<VStr("*"), VInt(
 OA  == VObj("A", << <<VStr("a"), VInt(1)>>, <<VStr("b"), VInt(2)>> >>)
 L12 == VList(<<VInt(1), VInt(2)>>)
 L5  == VList(<<VInt(5)>>)
+TFALSY == VDict(<< <<VStr("a"), VInt(0)>>, <<VStr("b"), VStr("")>>, <<VStr("c"), VBool(FALSE)>>, <<VStr("d"), VTup(<<>>)>> >>)
 P(text, segs) == SPath(text, segs)
 
 TOPT == VDict(<< <<VStr("opts"), VDict(<< <<VStr("a"), VInt(1)>> >>)>>, <<VStr("n"), VInt(2)>> >>)
@@ -42,6 +43,14 @@ FullPool == <<
   Call(L5, <<>>, 24, SProbe("boomB")),                                     \* that have the same __name__
   Call(VInt(3), <<>>, 25, SScopeLit),                                      \* an empty literal as scope value, written through the scope ...
   Call(VInt(2), <<>>, 25, SScopeLit),                                      \* ... the same spec object on another target
+  \* falsy-but-meaningful intermediate values: each is the value of its path, never replaced by a default
+  Call(TFALSY, <<>>, 26, SDict(<< <<"p", SCoal(<<P("a", <<"a">>)>>, Default(VInt(9)))>>, <<"q", SCoal(<<P("b", <<"b">>)>>, Default(VInt(9)))>>,
+                               <<"r", SCoal(<<P("c", <<"c">>)>>, Default(VInt(9)))>>, <<"s", SEach("list", SProbe("inc"))>> >>)),
+  Call(VGen(<<VInt(1), VInt(0), VBool(TRUE)>>), <<>>, 27, SEach("uniq", SProbe("id"))),     \* a one-shot iterator; 1 == True
+  Call(VGen(<<VInt(2), VInt(0)>>), <<>>, 28, SAcc("group", "inc")),                         \* ... consumed by a Group
+  Call(VList(<<VHostile(1), VHostile(2), VInt(0)>>), <<>>, 29, SEach("list", SProbe("id"))), \* objects with a hostile __eq__ flow through by identity
+  Call(L12, <<>>, 30, SDict(<< <<"last", SCoal(<<P("-1", <<"-1">>)>>, NoDefault)>>, <<"len", SCoal(<<P("2", <<"2">>)>>, Default(VNone))>>,
+                            <<"first", P("0", <<"0">>)>> >>)),                              \* index boundaries: -1, exactly the length, 0
   Call(T1, <<>>, 1, P("*", <<"*">>)),                                      \* star-sensitive
   Call(L5, <<>>, 4, SAcc("group", "inc")),                                 \* the same spec object on another target
   Call(T1, <<>>, 10, P("a.*", <<"a", "*">>)),                              \* star-sensitive, 2 segments
